@@ -1694,10 +1694,27 @@ package main
 //@   ensures live: live(result.E0) && samebuf(result.E0, ps)
 //@   ensures progress: result.E0.tkz.current.begin > ps.tkz.current.begin
 
+// the first pair of that name; a name that is not in the list is a panic
+//@ func lookupPairByName
+//@   props C09 C03
+//@   ghost J int                 -- source index of the pair returned
+//@   panics iff forall j int :: 0 <= j && j < len(pairs) ==> pairs[j].Name != targetName
+//@   ensures found: result.Name == targetName
+//@   ensures a-pair-of-the-list: 0 <= J && J < len(pairs) && pairs[J] == result
+//@   ensures the-first-of-that-name: forall j int :: 0 <= j && j < J ==> pairs[j].Name != targetName
+//@   at after call slice.Filter#0: J = c_idx[0]
+
+//@ func utCases
+//@   props C09 C03
+//@   panics iff !has_uniinfo(ut)
+//@   returns uniinfo(ut).Cases
+
 //@ func lookupCase
-//@   trusted
-//@   panics may
-//@   note abstract: the case of a union by name, from the global union-info table
+//@   props C09 C03
+//@   ghost J int
+//@   panics iff !has_uniinfo(fu) || (forall j int :: 0 <= j && j < len(uniinfo(fu).Cases) ==> uniinfo(fu).Cases[j].Name != caseName)
+//@   ensures a-case-of-the-union-by-name: result.Name == caseName && 0 <= J && J < len(uniinfo(fu).Cases) && uniinfo(fu).Cases[J] == result
+//@   at after call lookupPairByName#0: J = c_J
 
 //@ func parseUnionMatchRule
 //@   props C06 C09 C07 C16
